@@ -522,6 +522,8 @@ func (d *DataStore) appendIndexHostsFromHostColumns(uniqHosts map[string]bool, f
 		// name == <value>
 		case Equal, EqualNocase:
 			uniqHosts[fil.stringVal] = true
+			// the lower case index only lists names which differ from their lower case form
+			uniqHosts[strings.ToLower(fil.stringVal)] = true
 			for _, key := range d.indexLowerCase[strings.ToLower(fil.stringVal)] {
 				uniqHosts[key] = true
 			}
